@@ -101,6 +101,11 @@ def dataset_spec(draw, kind=None, n_obs=None, shape=None):
                          'container': draw(st.sampled_from(['array', 'array', 'array', 'list']))}}
         if draw(st.integers(0, 3)) == 0:
             time['tgrp'] = draw(labelled(n_time, 2, kinds=('str',)))
+            if draw(st.booleans()):
+                # window onsets: a coarse float descriptor, non-decreasing along the axis, with ties
+                k = draw(st.integers(1, max(1, n_time - 1)))
+                time['tgrp'] = {'values': [0.05 * (1 + (i * k) // n_time) for i in range(n_time)],
+                                'container': draw(gen.container)}
         spec['time'] = time
     return spec
 
